@@ -129,6 +129,14 @@ class C19(Engine):
             if fmt == "ti_txt" and addr + n > 0x10000:
                 fmt = "hex"
             load = {"fmt": fmt, "addr": addr, "data": rng.bytes(n).hex(), "set_pc": None, "ending": rng.pick(["q\n", "q", "q\r\n"])}
+            if rng.chance(1, 4) and bpa in (1, 2, 4) and addr + n < 0x7fff0000:
+                # an ELF from the real assembler (separate lifetime) with exported labels: range arguments by symbol name
+                n += (-n) % max(align, bpa)
+                load["data"] = rng.bytes(n).hex()
+                load["fmt"] = "elf"
+                step = max(align, bpa)
+                offs = sorted(set(rng.below(n // step + 1) * step for _ in range(rng.range(1, 4))))
+                load["syms"] = [["s%d_%x" % (j, rng.below(1 << 16)), o] for j, o in enumerate(offs) if o < n]
             if rng.chance(1, 3) and cpu in SIM:
                 load["set_pc"] = (addr // bpa) + rng.below(8) * (2 if align >= 2 and bpa == 1 else 1)
             if fmt == "bin" and bpa != 1:
@@ -160,7 +168,14 @@ class C19(Engine):
                 for _ in range(nv):
                     v = rng.below(1 << (8 * width)) if rng.chance(3, 4) else rng.below(1 << 32)
                     vals.append(spelled(rng, v))
-                plan["ops"].append({"op": "write", "width": width, "addr": spelled(rng, a, False), "vals": vals})
+                wop = {"op": "write", "width": width, "addr": spelled(rng, a, False), "vals": vals}
+                syms = (plan["load"] or {}).get("syms")
+                if syms and rng.chance(1, 3):
+                    name, off = rng.pick(syms)
+                    sb = plan["load"]["addr"] + off
+                    if sb % bpa == 0 and (width == 1 or sb % (align if width == 4 else min(align, 2)) == 0):
+                        wop["addr"] = [name, sb // bpa]
+                plan["ops"].append(wop)
             elif k < 13:
                 width = rng.pick([1, 1, 2, 4])
                 lo = base + rng.below(0x60)
@@ -173,7 +188,18 @@ class C19(Engine):
                             continue
                         lo = b // bpa
                 hi = lo + rng.range(1, 0x50)
-                plan["ops"].append({"op": "print", "width": width, "lo": lo, "hi": hi, "form": rng.pick(["a-b", "a-b", "a-b", "a", "a - b"])})
+                pop = {"op": "print", "width": width, "lo": lo, "hi": hi, "form": rng.pick(["a-b", "a-b", "a-b", "a", "a - b"])}
+                syms = (plan["load"] or {}).get("syms")
+                if syms and rng.chance(1, 2):
+                    name, off = rng.pick(syms)
+                    sb = plan["load"]["addr"] + off
+                    if sb % bpa == 0 and (width == 1 or sb % (align if width == 4 else min(align, 2)) == 0):
+                        pop.update({"lo": sb // bpa, "hi": sb // bpa + rng.range(1, 0x50), "lo_sym": name})
+                        others = [(n2, o2) for n2, o2 in syms if o2 > off]
+                        if others and rng.chance(1, 2):
+                            n2, o2 = rng.pick(others)
+                            pop.update({"hi": (plan["load"]["addr"] + o2) // bpa, "hi_sym": n2})
+                plan["ops"].append(pop)
             elif k < 15 and cpu in progs.corpus():
                 pi = [c for c in progs.corpus()[cpu] if c[2] == 1 and c[1] and ":" not in c[0]]
                 if pi:
@@ -232,7 +258,25 @@ class C19(Engine):
         low_addr = None
         if load:
             data = bytes.fromhex(load["data"])
-            if load["fmt"] == "bin":
+            if load["fmt"] == "elf":
+                from vlib import images
+                img = {"cpu": cpu, "segments": [(load["addr"], data)], "entry": None,
+                       "exports": [(nm, load["addr"] + off) for nm, off in load["syms"]]}
+                o = ex.call(build_request(MODE_ASM, ["naken_asm", "-type", "elf", "-o", "img.elf", "a.asm"],
+                                          {"/sim/w/a.asm": images.render_image(img).encode()}))
+                res.absorb(o)
+                digests.append(o.digest())
+                elf = None
+                for p, k, d in o.delta:
+                    if p == "/sim/w/img.elf" and k == 0:
+                        elf = d
+                if elf is None:
+                    res.probe("elf_not_written")
+                    elf = b""
+                    data = b""
+                files["/sim/w/img.elf"] = elf
+                argv.append("img.elf")
+            elif load["fmt"] == "bin":
                 files["/sim/w/img.bin"] = data
                 argv += ["-bin"]
                 if load["addr"]:
@@ -309,18 +353,24 @@ class C19(Engine):
             if op["op"] == "write":
                 cmd = {1: "write", 2: "write16", 4: "write32"}[op["width"]]
                 a_text, a = op["addr"]
+                if a_text[:1] == "s" and "_" in a_text:
+                    res.probe("write_by_symbol")
                 console.append("%s %s %s" % (cmd, a_text, " ".join(t for t, _ in op["vals"])))
                 expect.append(("write", (op["width"], a, [v for _, v in op["vals"]])))
                 touch(a * bpa, op["width"] * len(op["vals"]))
             elif op["op"] == "print":
                 cmd = {1: "print", 2: "print16", 4: "print32"}[op["width"]]
                 form = op["form"]
+                lo_t = op.get("lo_sym") or "0x%x" % op["lo"]
+                hi_t = op.get("hi_sym") or "0x%x" % op["hi"]
                 if form == "a-b":
-                    arg = "0x%x-0x%x" % (op["lo"], op["hi"])
+                    arg = "%s-%s" % (lo_t, hi_t)
                 elif form == "a - b":
-                    arg = "0x%x - 0x%x" % (op["lo"], op["hi"])
+                    arg = "%s - %s" % (lo_t, hi_t)
                 else:
-                    arg = "0x%x" % op["lo"]
+                    arg = lo_t
+                if "lo_sym" in op:
+                    res.probe("print_by_symbol")
                 console.append("%s %s" % (cmd, arg))
                 lo_b = op["lo"] * bpa
                 hi_b = (op["hi"] - 1) * bpa if form != "a" else lo_b + 64
@@ -659,7 +709,7 @@ class C19(Engine):
             if chunk == 1:
                 break
             chunk //= 2
-        if plan["load"]:
+        if plan["load"] and not plan["load"].get("syms"):      # (symbol-named operations need the file that defines them)
             c = copy.deepcopy(plan)
             c["load"] = None
             yield c
